@@ -26,13 +26,13 @@ from ref import rvjump as RV
 
 PROPERTY = "C13"
 LEVEL = "model_checking"
-N_SHAPES = {"quick": 20, "thorough": 90}
+N_SHAPES = {"quick": 24, "thorough": 96}
 BOUNDS = {
-    "quick": {"shapes": "14 hand-written + seeded sample up to 20 (family: 1-2 objects, 1-3 sections, 2-5 j/jal with "
-                        "rd in {x0,x1,x5}, 0-2 beq / .word references, fillers 0-12 bytes (one shape 2040-2052), 1-2 memories)",
+    "quick": {"shapes": "17 hand-written + seeded sample up to 24 (family: 1-2 objects, 1-3 sections, 2-5 j/jal with "
+                        "rd in {x0,x1,x5}, 0-2 beq / .word references, DEFINESYMBOL / empty marker sections as targets, fillers 0-12 bytes (one shape 2040-2052), 1-2 memories)",
               "memory base m0": "[0, 2**32-2**21]", "other memory bases": "m0 + [-2**19, 2**19] (keeps every jump inside the JAL range)",
               "filler bytes": "every value (fillers > 8 bytes: first and last 3 bytes symbolic)"},
-    "thorough": {"shapes": "14 hand-written + seeded sample up to 90 (same family)",
+    "thorough": {"shapes": "17 hand-written + seeded sample up to 96 (same family)",
                  "memory base m0": "[0, 2**32-2**21]", "other memory bases": "m0 + [-2**19, 2**19]",
                  "filler bytes": "every value (fillers > 8 bytes: first and last 3 bytes symbolic)"},
 }
@@ -113,6 +113,7 @@ class RelaxHarness(Harness):
             self.elems[name] = el
             self.elems[name + "/size"] = tot
         self.sizes = {n: self.elems.pop(n + "/size") for n in list(self.pieces)}
+        self.defs = [n[1:] for m in shape["layout"] for n in m["secs"] if n.startswith("=")]
 
     # ------------------------------------------------------------------ inputs
     def inputs(self, mk):
@@ -197,7 +198,10 @@ class RelaxHarness(Harness):
             mem.location = inp["locs"][mi]
             mem.size = 1 << 33
             for n in m["secs"]:
-                mem.add_input(L.Section(n))
+                if n.startswith("="):
+                    mem.add_input(L.SymbolDefinition(n[1:]))      # DEFINESYMBOL(name)
+                else:
+                    mem.add_input(L.Section(n))
             lay.add_memory(mem)
         return lay
 
@@ -231,6 +235,8 @@ class RelaxHarness(Harness):
         those shrink by 2 bytes (fork-free; used for the known-finding regions and the 'every byte accounted' checks)."""
         A = {n: oracle["secs"][n][0] for n in self.pieces}
         lab = {l: A[s] + off for l, (s, off) in self.label_at.items()}
+        for n in self.defs:
+            lab[n] = oracle["syms"][n]
         d = {}
         newoff = {}
         removed = {}
@@ -245,15 +251,17 @@ class RelaxHarness(Harness):
                     rem = rem + ite(c, 2, 0)
             removed[n] = rem
         E = {}
+        nlab = {}
         for m in self.shape["layout"]:
             delta = 0
             for n in m["secs"]:
-                if n in A:
+                if n.startswith("="):
+                    nlab[n[1:]] = lab[n[1:]] - delta        # a layout symbol marks the location counter: it moves too
+                elif n in A:
                     E[n] = A[n] - delta
                     delta = delta + removed[n]
         for n in A:
             E.setdefault(n, A[n])
-        nlab = {}
         for n, el in self.elems.items():
             for e in el:
                 if e["kind"] == "label":
@@ -319,6 +327,27 @@ class RelaxHarness(Harness):
                 rem = rem + ite(sp["d"][e["key"]], 2, 0)
         return off - rem
 
+    def oracle_sound(self, o):
+        """every jump / branch / word of the UNRELAXED output designates its label"""
+        cs = []
+        for n, el in self.elems.items():
+            data = o["secs"][n][2]
+            base = o["secs"][n][0]
+            for e in el:
+                if "target" not in e:
+                    continue
+                w = RV.le(data[e["old"]:e["old"] + 4])
+                t = o["syms"][e["target"]]
+                if e["kind"] in ("j", "jal"):
+                    ok, rd, off = RV.jal32(w)
+                    cs.append(sym_and(ok, base + e["old"] + off == t))
+                elif e["kind"] == "beq":
+                    ok, off = RV.branch32(w)
+                    cs.append(sym_and(ok, base + e["old"] + off == t))
+                else:
+                    cs.append(w == t)
+        return sym_and(*cs) if cs else True
+
     # ------------------------------------------------------------------ post
     def post(self, inp, out):
         if not out.ok:
@@ -329,7 +358,10 @@ class RelaxHarness(Harness):
             return {"premise-unrelaxed-link-succeeds": True}
         r = v.get("relaxed")
         if r["status"] != "ok":
-            return {"relaxed-link-succeeds-when-unrelaxed-does": False}
+            # a failing relaxed link is a defect only if the unrelaxed output is itself correct (every reference
+            # in range, i.e. really reaching its label; an out-of-range branch that ppci's wrap_negative lets
+            # through in the unrelaxed link is C10's finding, not a relaxation defect)
+            return {"relaxed-link-succeeds-when-unrelaxed-does": sym_not(self.oracle_sound(o))}
         A = {n: o["secs"][n][0] for n in self.pieces}
         RA = {n: r["secs"][n][0] for n in self.pieces}
         ob = {}
@@ -355,7 +387,22 @@ class RelaxHarness(Harness):
             walk_ok.append(len(data) == self.sizes[n] - rem)
         ob["section-size-is-old-size-minus-removed-bytes"] = all(walk_ok)
 
+        defpos = {}
+        shift = []
+        for m in self.shape["layout"]:
+            delta = 0
+            for n in m["secs"]:
+                if n.startswith("="):
+                    ps = f"_${n[1:]}_"
+                    defpos[n[1:]] = o["syms"][n[1:]] - delta
+                    shift.append(False if ps not in r["secs"] else r["secs"][ps][0] == o["secs"][ps][0] - delta)
+                elif n in A:
+                    shift.append(RA[n] == A[n] - delta)
+                    delta += removed[n]
+
         def where(label):          # where the code/data marked by the label really is in the relaxed output
+            if label in defpos:
+                return defpos[label]
             s, off = self.label_at[label]
             for e in self.elems[s]:
                 if e["kind"] == "label" and e["name"] == label:
@@ -418,15 +465,11 @@ class RelaxHarness(Harness):
                         cs.append(False)
                         continue
                     cs.append(new == where(e["name"]))
+        for n in self.defs:
+            new = r["syms"].get(n)
+            cs.append(False if new is None else new == defpos[n])
         ob["symbols-shift-with-their-code"] = sym_and(*cs) if cs else True
-        cs = []
-        for m in self.shape["layout"]:
-            delta = 0
-            for n in m["secs"]:
-                if n in A:
-                    cs.append(RA[n] == A[n] - delta)
-                    delta += removed[n]
-        ob["sections-shift-by-bytes-removed-before-them"] = sym_and(*cs) if cs else True
+        ob["sections-shift-by-bytes-removed-before-them"] = sym_and(*shift) if shift else True
         want = sorted((n, newoff[e["key"]], e["target"]) for n, el in self.elems.items() for e in el if "target" in e)
         try:
             got = sorted((sec, int(off), name) for (_, name, sec, off) in r["rels"])
@@ -525,6 +568,17 @@ def hand_shapes():
     sh.append(dict(objs=[dict(secs=[Sx("code", L("a"), J("b"), L("b"), F(2)), Sx("code2", L("x"), F(4), al=8)]),
                          dict(secs=[Sx("code", L("c"), JAL(1, "a"), J("x"), al=8)])],
                    layout=[dict(name="m0", secs=["code", "code2"])]))
+    # 15 DEFINESYMBOL behind relaxed code; jumps, a branch and an address word refer to it
+    sh.append(dict(objs=one(Sx("data", Wd("cend"), Wd("a")),
+                            Sx("code", L("a"), J("cend"), F(2), JAL(1, "a"), B("cend"), J("a")),
+                            Sx("code2", L("x"), J("cend"), F(2))),
+                   layout=[dict(name="ram", secs=["data"]), dict(name="flash", secs=["=cstart", "code", "=cend", "code2", "=iend"])]))
+    # 16 empty marker section (only a label) behind relaxed code, in the same and in another memory
+    sh.append(dict(objs=one(Sx("code", L("a"), J("mk"), J("a"), F(2), J("mk2")), Sx("mark", L("mk")), Sx("mark2", L("mk2"))),
+                   layout=[dict(name="m0", secs=["code", "mark"]), dict(name="m1", secs=["mark2"])]))
+    # 17 conditional branch across memories behind a shrinking jump (distance can grow past +-4 KiB)
+    sh.append(dict(objs=one(Sx("code", L("a"), J("b"), L("b"), B("x"), F(2), B("y")), Sx("code2", L("y"), F(2), L("x"), J("y"), F(2))),
+                   layout=[dict(name="m0", secs=["code"]), dict(name="m1", secs=["code2"])]))
     return sh
 
 
@@ -572,6 +626,21 @@ def gen_shape(rng):
         if rng.random() < 0.5:
             layout.reverse()
             layout[0]["name"], layout[1]["name"] = "m0", "m1"
+    # layout-defined symbols / empty marker sections as additional targets
+    extra_targets = []
+    if rng.random() < 0.35:
+        m = rng.choice(layout)
+        m["secs"].insert(rng.randint(0, len(m["secs"])), "=D0")
+        extra_targets.append("D0")
+    if rng.random() < 0.2:
+        objs[0]["secs"].append(dict(n="mark", items=[["label", "MK"]]))
+        m = rng.choice(layout)
+        m["secs"].insert(rng.randint(1, len(m["secs"])), "mark")
+        extra_targets.append("MK")
+    for t in extra_targets:
+        refs = [it for o in objs for sc in o["secs"] for it in sc["items"] if it[0] in ("j", "jal", "beq", "word")]
+        for it in rng.sample(refs, min(len(refs), rng.randint(1, 2))):
+            it[-1] = t
     return dict(objs=objs, layout=layout)
 
 
@@ -596,5 +665,5 @@ def jobs(tier, seed):
     js = [("mk_relax", dict(shape=s, idx=i)) for i, s in enumerate(shapes(tier, seed))]
     only = os.environ.get("VERIF_ONLY")
     if only:
-        js = [j for j in js if only in repr(j) or only == f"#{j[1]['idx']}" or (only == "hand" and j[1]["idx"] < 14)]
+        js = [j for j in js if only in repr(j) or only == f"#{j[1]['idx']}" or (only == "hand" and j[1]["idx"] < 17)]
     return js
